@@ -8,7 +8,8 @@ LEVEL_TEXT = ("Static analysis of the type-checked MIR of /repo: the per-packet 
               "duplicates rejected); packet numbers recorded as received are shown to come only from authenticated "
               "packets. Decides these necessary structural conditions for every path of the compiled code; does not "
               "decide the range/gap arithmetic of ACK generation.")
-NOT_DECIDED = ["completeness of generated ACK ranges and the capacity cut-off arithmetic in gen_ack_frame_util",
+NOT_DECIDED = ["completeness of generated ACK ranges and the running capacity subtraction in gen_ack_frame_util (only the "
+               "range-count boundary table is decided, R3)",
                "frame-offset arithmetic of SentJournal (which frames belong to which packet)",
                "that an ACK frame always fits: relies on C05-R2 size agreement for AckFrame"]
 
@@ -21,6 +22,9 @@ def run(ctx):
     ctx.rule("R1", "state-transition tables: be_acked (Flighting|Retransmitted -> Acked, report nframes; Acked|Skipped -> "
                    "unchanged, report 0), maybe_lost (Flighting -> Retransmitted; Acked|Skipped -> unchanged, 0), "
                    "track_packet_in_ack_frame (Empty -> false, no state change), could_expire (PacketReceived|AckSent -> false)")
+    ctx.rule("R3", "ACK-frame capacity accounting: the extra bytes charged when the Ack Range Count grows are charged exactly at the "
+                   "varint boundaries (count 63 -> +1, 16383 -> +2, 2^30-1 -> +4): table extracted from the guards of "
+                   "range_count_size_increment")
     ctx.rule("R2", "at-most-once acceptance: decode_pn returns Ok only when the slot is vacant or Empty; on_rcvd_pn is "
                    "fed only PlainPacket::pn() of an authenticated packet")
     # ---------------------------------------------------------------- R1
@@ -136,3 +140,35 @@ def run(ctx):
     ctx.floor("R2", "decode_pn call sites", len(sites), 7)
     ctx.assume("PlainPacket values exist only after AEAD authentication (decided by C06-R1, witnessed by privacy of its fields)")
     ctx.assume("IndexDeque::get returns None exactly for numbers without a record (value-level, not decided)")
+    # ---------------------------------------------------------------- R3
+    inc = [b for b in prog.bodies.values() if b.short.endswith("gen_ack_frame_util::range_count_size_increment")]
+    ctx.floor("R3", "range_count_size_increment bodies", len(inc), 1)
+    for b in inc[:1]:
+        ctx.touch(b)
+        table = {}
+        bad = []
+        for (i, j, p, rv, line) in b.assigns():
+            if p != [0] or rv[0] != "use" or const_int(rv[1]) in (None, 0):
+                continue
+            r = const_int(rv[1])
+            g = guard_cmp(b, i)
+            if g is None:
+                bad.append("increment %d: no guard recognised" % r)
+                continue
+            (sw, op, x, y) = g
+            lx, ly = lin(b, x), lin(b, y)
+            if lx is None or ly is None or len(lx) != 1 or len(ly) != 1 or op != "Eq":
+                bad.append("increment %d: guard is not an equality of affine forms (%s %s %s)" % (r, lx, op, ly))
+                continue
+            (ka, ba, ca), (kb, bb, cb) = lx[0], ly[0]
+            # ka*n + ca == kb*n' + cb  with exactly one side depending on the argument
+            if ka and not kb and ba == "arg:1" and (cb - ca) % ka == 0:
+                table[(cb - ca) // ka] = r
+            elif kb and not ka and bb == "arg:1" and (ca - cb) % kb == 0:
+                table[(ca - cb) // kb] = r
+            else:
+                bad.append("increment %d: guard does not fix the range count (%s == %s)" % (r, lx, ly))
+        want = {(1 << 6) - 1: 1, (1 << 14) - 1: 2, (1 << 30) - 1: 4}
+        ctx.ob("R3", "%s|increment table equals the varint boundaries" % b.short, table == want and not bad, b.where(),
+               "extracted {range count: extra bytes} = %s, expected %s%s — charging the extra byte one range late lets an ACK frame "
+               "with 64 (16384) ranges exceed the space it was given" % (table, want, ("; " + "; ".join(bad)) if bad else ""))
